@@ -175,11 +175,12 @@ pub proof fn lemma_link(doc: &LuaDocument, m: SymMap, parent: LuaSyntaxId, child
         }
     }
 }
-/// n-th ancestor of an element (0: the element itself)
-pub open spec fn nth_parent(e: Syn, n: nat) -> Option<Syn>
-    decreases n
-{
-    if n == 0 { Some(e) } else {
-        match nth_parent(e, (n - 1) as nat) { Some(p) => sp_parent(p), None => None }
-    }
+/// emmylua_code_analysis::LuaDecl, opaque; `get_range()` = the range recorded by the declaration analysis (for a local
+/// name / assigned variable: the range of the name)
+#[verifier::external_body]
+pub struct LuaDecl { _p: () }
+pub uninterp spec fn sp_decl_range(d: &LuaDecl) -> TextRange;
+impl LuaDecl {
+    #[verifier::external_body]
+    pub fn get_range(&self) -> (r: TextRange) ensures r == sp_decl_range(self) { unimplemented!() }
 }
